@@ -281,6 +281,7 @@ pub struct RunOpts {
     pub runs_override: Option<u64>,
     pub digests_out: Option<PathBuf>,
     pub quiet: bool,
+    pub write_evidence: bool,
 }
 
 /// Parent driver for one property.  Returns the process exit code.
@@ -375,7 +376,7 @@ pub fn run_check<P: Property>(o: &RunOpts) -> i32 {
 
     // ---- cross-process determinism sample ------------------------------------
     let mut cross_checked = 0u64;
-    if P::CROSS_PROCESS_RUNS > 0 {
+    if P::CROSS_PROCESS_RUNS > 0 && o.write_evidence {
         let n = (P::CROSS_PROCESS_RUNS * if o.tier == Tier::Thorough { 10 } else { 1 }).min(total);
         let mut groups: Vec<Vec<(i64, u64, u64)>> = Vec::new();
         for (gi, gw) in [8u64, 5u64].iter().enumerate() {
@@ -471,6 +472,22 @@ pub fn run_check<P: Property>(o: &RunOpts) -> i32 {
         harness_errors.push(format!("only {runs_done} of {total} runs completed"));
     }
 
+    // ---- optional extra layer (C17: Miri many-seeds, run by ./check) -----------
+    let mut extra_layer = Value::Null;
+    if let Ok(pth) = std::env::var("VERIF_EXTRA_LAYER_RESULT") {
+        if let Some(v) = std::fs::read(&pth).ok().and_then(|b| serde_json::from_slice::<Value>(&b).ok()) {
+            if v["property"].as_str() == Some(P::ID) {
+                if v["ok"].as_bool() == Some(false) {
+                    lines.push(format!("VIOLATION property={} replay={}", P::ID, v["log"].as_str().unwrap_or("?")));
+                    lines.push(format!("  class: {}", v["class"].as_str().unwrap_or("extra layer failed")));
+                    n_viol += 1;
+                    exit = 1;
+                }
+                extra_layer = v;
+            }
+        }
+    }
+
     // ---- evidence -----------------------------------------------------------
     let wall = t0.elapsed().as_secs_f64();
     let mut faults = BTreeMap::new();
@@ -517,6 +534,7 @@ pub fn run_check<P: Property>(o: &RunOpts) -> i32 {
             "replay_checked": replay_checked,
             "replay_mismatches": replay_mismatches,
             "known_findings_hit": known_hit,
+            "extra_layer": extra_layer,
             "components": {
                 "real": ["h263-rs (H263Reader, picture/GOB/macroblock/block parsers, H263State, gather, idct, rle)", "h263-rs-deblock::deblock", "h263-rs-yuv::bt601::yuv420_to_rgba"],
                 "stub": ["SimSource (byte source + source faults)", "picture encoder + transit faults", "plan generator / fault planner", "reference models (reader R, reference management M, reconstruction P, header pre-parser H)", "baton thread scheduler (C17)"]
@@ -527,9 +545,11 @@ pub fn run_check<P: Property>(o: &RunOpts) -> i32 {
         "wall_s": wall,
         "violations": n_viol
     });
-    let evdir = verif_dir().join("evidence");
-    let _ = std::fs::create_dir_all(&evdir);
-    let _ = std::fs::write(evdir.join(format!("{}.json", P::ID)), serde_json::to_vec_pretty(&ev).unwrap());
+    if o.write_evidence {
+        let evdir = verif_dir().join("evidence");
+        let _ = std::fs::create_dir_all(&evdir);
+        let _ = std::fs::write(evdir.join(format!("{}.json", P::ID)), serde_json::to_vec_pretty(&ev).unwrap());
+    }
     if let Some(p) = &o.digests_out {
         digests.sort();
         let mut s = String::new();
